@@ -418,3 +418,37 @@ def e2_idiv_mixed(ctx):
     funcs=[O1 + ':evaluate__mod_operator', 'elementpath/xpath_tokens/base.py:get_operands (promotion contract)'])
 def e2_mod_mixed(ctx):
     return _divmod_obligation('mod', P31, 'mod', 'mod')
+
+
+# --- added after round-2 seeded changes: IEEE special divisors as constants, dividend symbolic ------------------------------------
+
+@ob(budget=60, tbudget=300, kind='hunt', bound='x = k/2 double, |k| <= 16; divisors +0.0, -0.0, +INF, -INF, NaN as constants: div/idiv/mod follow IEEE 754 / F&O (doubles: bug-hunting)',
+    funcs=[O1 + ':evaluate__div_operator', O1 + ':evaluate__mod_operator', O2 + ':evaluate__idiv_operator'])
+def double_special_divisors(k: int) -> bool:
+    """
+    pre: -16 <= k <= 16
+    post: _
+    """
+    x = k / 2
+    inf = math.inf
+    pz, nz = _ev('div', a=x, b=0.0), _ev('div', a=x, b=-0.0)
+    if k == 0:
+        if not (math.isnan(pz) and math.isnan(nz)):
+            return False
+    elif not (pz == (inf if k > 0 else -inf) and nz == (-inf if k > 0 else inf)):
+        return False
+    if not (_ev('div', a=x, b=inf) == 0 and _ev('div', a=x, b=-inf) == 0 and math.isnan(_ev('div', a=x, b=math.nan))):
+        return False
+    if not (math.isnan(_ev('mod', a=x, b=0.0)) and math.isnan(_ev('mod', a=x, b=-0.0)) and math.isnan(_ev('mod', a=inf, b=2.0))):
+        return False
+    m = _ev('mod', a=x, b=inf)
+    if not (m == x):
+        return False
+    for b in (0.0, -0.0):
+        try:
+            _ev('idiv', a=x, b=b)
+            return False
+        except ElementPathError as e:
+            if err_code(e) != 'FOAR0001':
+                return False
+    return _ev('idiv', a=x, b=inf) == 0
